@@ -185,6 +185,24 @@ class TokModel:
 
 
 def leaves(t, conds=()):
+    if isinstance(t, tuple) and t and t[0] == "switch":
+        # decision list: the first arm whose pattern (and guard) holds
+        out = []
+        neg = ()
+        for (d, g), v in t[2]:
+            c = ("matches", t[1], d) if d[0] != "wild" else ("lit", True)
+            if g is not None:
+                c = ("bin", "&&", c, g) if c != ("lit", True) else g
+            here = conds + neg + (((c, True),) if c != ("lit", True) else ())
+            out += leaves(v, here)
+            if c != ("lit", True):
+                neg = neg + ((c, False),)
+        return out
+    if isinstance(t, tuple) and t and t[0] in ("proj", "tproj", "field") and len(t) >= 3 and isinstance(t[1], tuple) and t[1] and t[1][0] == "switch":
+        out = []
+        for cs, leaf in leaves(t[1], conds):
+            out += leaves((t[0], leaf) + tuple(t[2:]), cs)
+        return out
     if isinstance(t, tuple) and t and t[0] == "ite":
         return leaves(t[2], conds + ((t[1], True),)) + leaves(t[3], conds + ((t[1], False),))
     if isinstance(t, tuple) and t and t[0] == "proj" and t[1][0] == "ite" and last(t[2]) in ("Ok", "Some") and t[3] == 0:
@@ -192,6 +210,22 @@ def leaves(t, conds=()):
         return leaves(("proj", x[2], t[2], 0), conds + ((x[1], True),)) + leaves(("proj", x[3], t[2], 0), conds + ((x[1], False),))
     if isinstance(t, tuple) and t and t[0] == "proj" and t[1][0] == "ctor" and last(t[1][1]) == last(t[2]) and t[1][2]:
         return leaves(t[1][2][t[3]], conds)
+    if isinstance(t, tuple) and t and t[0] == "proj" and t[1][0] == "ctor" and last(t[1][1]) in ("Some", "None", "Ok", "Err") and last(t[2]) in ("Some", "Ok") \
+            and last(t[1][1]) != last(t[2]):
+        return []                 # the payload of Ok / Some taken from an Err / None: this branch was left by `?`
+    if isinstance(t, tuple) and t and t[0] in ("tproj", "field") and len(t) == 3 and str(t[2]).isdigit():
+        # component of a tuple that is itself a decision tree
+        out = []
+        inner = leaves(t[1], conds)
+        if len(inner) > 1 or (inner and inner[0][1] is not t[1]):
+            for cs, leaf in inner:
+                if leaf[0] == "proj" and not leaves(leaf, cs):
+                    continue
+                if leaf[0] == "tuple" and int(str(t[2])) < len(leaf[1]):
+                    out += leaves(leaf[1][int(str(t[2]))], cs)
+                else:
+                    out.append((cs, (t[0], leaf, t[2])))
+            return out
     return [(conds, t)]
 
 
